@@ -136,6 +136,46 @@ static long vptr_room(const opus_res *p)   /* samples from p to the end of its b
 #undef ALLOC
 #define ALLOC(var, size, type) type var[size]; verif_alloc(#var, var, (long)(size))
 
+/* ------------------------------------------------------------------ gain pass and cross-fades (inline loops)
+   opus_decode_frame applies the decoder gain and the cross-fades with inline loops; they are observed through the
+   arithmetic macros those loops use.  In the float build celt_exp2 and MULT16_32_P16 occur in opus_decoder.c only in
+   the gain block (one celt_exp2 per pass, one multiply per sample, on pcm[i]) and MULT16_16_Q15 only in smooth_fade
+   (one per output sample).  The original macro bodies are kept in the verif_orig_* functions, so the arithmetic is
+   the tree's own.  A pass is reported lazily, when the next recorded event (or the end of the call) arrives:
+   `G<count>@<first sample>` for a gain pass, `F<count>` for a cross-fade. */
+static struct { int kind; const opus_res *p0; long n; int contiguous; } GP;
+static void vflush(void)
+{
+   if (GP.kind == 'G') {
+      char pb[64]; vptr(pb, GP.p0);
+      EV("%sG%ld@%s", G.evn ? ";" : "", GP.n, pb);
+      if (!GP.contiguous) vcontract("gain pass over %ld samples at %s is not one contiguous sweep", GP.n, pb);
+      else { long room = vptr_room(GP.p0); if (GP.n > 0 && room >= 0 && room < GP.n) vcontract("gain pass over %ld samples at %s", GP.n, pb); }
+   } else if (GP.kind == 'F') EV("%sF%ld", G.evn ? ";" : "", GP.n);
+   GP.kind = 0; GP.n = 0; GP.p0 = NULL; GP.contiguous = 1;
+}
+static int vgain_begin(void) { if (G.on) { vflush(); GP.kind = 'G'; } return 0; }
+static int vgain_touch(const opus_res *p)
+{
+   if (!G.on) return 0;
+   if (GP.kind != 'G') { vflush(); GP.kind = 'G'; }           /* a gain multiply without the celt_exp2 before it */
+   if (GP.n == 0) GP.p0 = p; else if (p != GP.p0 + GP.n) GP.contiguous = 0;
+   GP.n++;
+   return 0;
+}
+static int vfade_touch(void)
+{
+   if (!G.on) return 0;
+   if (GP.kind != 'F') { vflush(); GP.kind = 'F'; }
+   GP.n++;
+   return 0;
+}
+#ifndef FIXED_POINT
+static OPUS_INLINE opus_val32 verif_orig_exp2(opus_val32 x) { return celt_exp2(x); }
+static OPUS_INLINE opus_val32 verif_orig_mul_p16(opus_val32 a, opus_val32 b) { return MULT16_32_P16(a, b); }
+static OPUS_INLINE opus_val16 verif_orig_mul_q15(opus_val16 a, opus_val16 b) { return MULT16_16_Q15(a, b); }
+#endif
+
 /* ------------------------------------------------------------------ wrappers (oracles) */
 static void plc_trace_pre(void *decState, silk_DecControlStruct *dc);
 static void plc_trace_post(void *decState, silk_DecControlStruct *dc);
@@ -151,6 +191,7 @@ static opus_int verif_wrap_silk_Decode(void *decState, silk_DecControlStruct *dc
             && (lostFlag >= 0 && lostFlag <= 2);
    long room = vptr_room(samplesOut);
    if (!G.on) return silk_Decode(decState, dc, lostFlag, newPacketFlag, rd, samplesOut, nSamplesOut, arch);
+   vflush();
    vptr(pb, samplesOut);
    if (valid && room >= 0 && room < (long)((ps == 10 ? 10 : 20) * (api / 1000)) * nca)
       vcontract("silk_Decode would write %ld samples at %s", (long)((ps == 10 ? 10 : 20) * (api / 1000)) * nca, pb);
@@ -181,6 +222,7 @@ static int celt_common(int which, CELTDecoder *st, const unsigned char *data, in
    int legal;
    if (!G.on) return which ? celt_decode_with_ec_dred(st, data, len, pcm, frame_size, dec, accum)
                            : celt_decode_with_ec(st, data, len, pcm, frame_size, dec, accum);
+   vflush();
    vptr(pb, pcm);
    if (data == NULL) strcpy(db, "n");
    else if (G.pkt && data >= G.pkt && data <= G.pkt + G.pktlen) {
@@ -224,6 +266,7 @@ static void verif_wrap_dec_init(ec_dec *d, unsigned char *buf, opus_uint32 stora
 {
    if (G.on) {
       long off = G.pkt ? (long)(buf - G.pkt) : -1;
+      vflush();
       EV("%sI%ld,%u", G.evn ? ";" : "", off, (unsigned)storage);
       if (!G.pkt || off < 0 || off + (long)storage > G.pktlen) vcontract("ec_dec_init on bytes [%ld,%ld) of a %ld-byte packet", off, off + (long)storage, G.pktlen);
    }
@@ -231,12 +274,12 @@ static void verif_wrap_dec_init(ec_dec *d, unsigned char *buf, opus_uint32 stora
 }
 static opus_int verif_wrap_silk_Reset(void *decState)
 {
-   if (G.on) EV("%sR", G.evn ? ";" : "");
+   if (G.on) { vflush(); EV("%sR", G.evn ? ";" : ""); }
    return silk_ResetDecoder(decState);
 }
 static void verif_wrap_soft_clip(float *x, int N, int C, float *mem)
 {
-   if (G.on) { char pb[64]; vptr(pb, x); EV("%sK%d,%d@%s", G.evn ? ";" : "", N, C, pb); }
+   if (G.on) { char pb[64]; vflush(); vptr(pb, x); EV("%sK%d,%d@%s", G.evn ? ";" : "", N, C, pb); }
    opus_pcm_soft_clip(x, N, C, mem);
 }
 
@@ -248,7 +291,23 @@ static void verif_wrap_soft_clip(float *x, int N, int C, float *mem)
 #define ec_dec_init verif_wrap_dec_init
 #define silk_ResetDecoder verif_wrap_silk_Reset
 #define opus_pcm_soft_clip verif_wrap_soft_clip
+#ifndef FIXED_POINT
+#undef celt_exp2
+#define celt_exp2(x) (vgain_begin(), verif_orig_exp2(x))
+#undef MULT16_32_P16
+#define MULT16_32_P16(a,b) (vgain_touch(&(a)), verif_orig_mul_p16(a, b))
+#undef MULT16_16_Q15
+#define MULT16_16_Q15(a,b) (vfade_touch(), verif_orig_mul_q15(a, b))
+#endif
 #include "src/opus_decoder.c"
+#ifndef FIXED_POINT
+#undef celt_exp2
+#define celt_exp2(x) verif_orig_exp2(x)
+#undef MULT16_32_P16
+#define MULT16_32_P16(a,b) verif_orig_mul_p16(a, b)
+#undef MULT16_16_Q15
+#define MULT16_16_Q15(a,b) verif_orig_mul_q15(a, b)
+#endif
 #undef silk_Decode
 #undef celt_decode_with_ec_dred
 #undef celt_decode_with_ec
@@ -422,6 +481,7 @@ static callres do_call(OpusDecoder *st, int fmt, const unsigned char *pkt, long 
    }
    if (!G.quiet) { printf("P %s\n", G.pending); fflush(stdout); }
    G.on = 1; G.evn = G.orn = 0; G.ev[0] = G.orc[0] = 0; G.contract[0] = 0; G.nal = 0; G.lbrr_seen = -1;
+   GP.kind = 0; GP.n = 0; GP.p0 = NULL; GP.contiguous = 1;
    G.pkt = p; G.pktlen = isnull ? 0 : n; G.Fs = Fs; G.ch = ch;
    if (fmt == FMTF || fmt == FMTN0 || fmt == FMTN1) { G.user = g.pcm; G.usercap = nsamp; } else { G.user = NULL; G.usercap = 0; }
    alarm(20);
@@ -432,6 +492,7 @@ static callres do_call(OpusDecoder *st, int fmt, const unsigned char *pkt, long 
    default: ret = opus_decode_native(st, p, (opus_int32)len, (opus_res *)g.pcm, frame_size, fec, fmt == FMTN1, &po, 0, NULL, 0); break;
    }
    alarm(0);
+   vflush();
    G.on = 0;
    st_str(post, st);
    if (!G.quiet) {
